@@ -73,8 +73,9 @@ deriving Repr
 
 /-- the supervisor as the current source has it -/
 def cfgSrc : Cfg := ⟨Gen.sup_innerRetries, Gen.sup_outerRetries, Gen.sup_Forever, Gen.sup_stopByIs⟩
-/-- … with a cancellation test that works (the intent of the dead `case context.Canceled`) -/
-def cfgIntended : Cfg := { cfgSrc with stopByIs := true }
+/-- the supervisor the property describes, independent of the source: Down after **two** consecutive failures, retry
+for ever, a cancellation test that works (the intent of the dead `case context.Canceled`) -/
+def cfgIntended : Cfg := ⟨2, -1, -1, true⟩
 /-- … with the pointer comparison of the unrepaired source -/
 def cfgAsWritten : Cfg := { cfgSrc with stopByIs := false }
 
@@ -197,5 +198,9 @@ def sendRes : SendOut → FRes
 
 def trySend (outs : List SendOut) : Nat × REnd :=
   retryLoop Gen.sup_Forever Gen.send_retries 0 (outs.map sendRes)
+
+/-- TrySend as the property describes it: at most three attempts -/
+def trySendIntended (outs : List SendOut) : Nat × REnd :=
+  retryLoop (-1) 3 0 (outs.map sendRes)
 
 end LLRP.Sup
